@@ -266,6 +266,39 @@ func (w *wal) flush(batch WALBatch) error {
 	return nil
 }
 
+// repointPageTable makes the catalog entry that names the root page oldRoot
+// name newRoot instead.
+func repointPageTable(fs *fileStore, oldRoot uint64, newRoot uint64, lsn uint64) error {
+	pgTablePg, err := fs.fetch(fs.pageTableRoot)
+	if err != nil {
+		return err
+	}
+	bt := &BTree{store: fs}
+	bt.setRoot(pgTablePg)
+	return bt.scanRight(func(cell *leafCell) (ScanAction, error) {
+		tuple := Tuple{
+			Relation: &pageTableSchema,
+			Vals:     make(map[string]interface{}),
+		}
+		if err := tuple.Decode(bytes.NewBuffer(cell.valueBytes)); err != nil {
+			return StopScanning, err
+		}
+		if tuple.Vals["file_offset"] != int64(oldRoot) {
+			return KeepScanning, nil
+		}
+		tuple.Vals["file_offset"] = int64(newRoot)
+		buf, err := tuple.Encode()
+		if err != nil {
+			return StopScanning, err
+		}
+		if err := cell.pg.updateCell(cell.key, buf.Bytes()); err != nil {
+			return StopScanning, err
+		}
+		cell.pg.markDirty(lsn)
+		return StopScanning, nil
+	})
+}
+
 func (w WALBatch) replay(fs *fileStore) error {
 	for _, row := range w {
 		// LSNs are also taken by changes that are not logged (CREATE TABLE),
@@ -293,6 +326,14 @@ func (w WALBatch) replay(fs *fileStore) error {
 			// consumed by refused statements leave gaps in the log)
 			if row.cellID > fs.lastKey {
 				fs.lastKey = row.cellID
+			}
+			if bt.rootOffset != node.getFileOffset() {
+				// the insert moved the root of its table. the record that
+				// re-points the catalog is logged separately and may not have
+				// reached the log, so the move is completed here
+				if err := repointPageTable(fs, node.getFileOffset(), bt.rootOffset, row.LSN); err != nil {
+					return err
+				}
 			}
 
 		case OpUpdate:
